@@ -1,8 +1,9 @@
 import Huginn.Drv.C03
 import Huginn.Drv.C14
+import Huginn.Drv.C19
 namespace Huginn.Drv
 
 def allHandlers : List (String × (String → P Verdict)) :=
-  Huginn.Drv.C03.handlers ++ Huginn.Drv.C14.handlers
+  Huginn.Drv.C03.handlers ++ Huginn.Drv.C14.handlers ++ Huginn.Drv.C19.handlers
 
 end Huginn.Drv
